@@ -30,6 +30,7 @@ impl<M: MemBuilder> AnyVecRaw<M> {
                     None
                 } else{
                     Some(|mut ptr: *mut u8, len: usize|{
+                        #[cfg_attr(kani, kani::loop_invariant(crate::kani_verif::k1_loops::dc_inv::<T>(ptr, on_entry(ptr), kani::index, len)))]
                         for _ in 0..len{
                             unsafe{
                                 ptr::drop_in_place(ptr as *mut T);
